@@ -98,6 +98,12 @@ func (buf *BipBuffer) Commit(n int) []byte {
 	if toCommit > n {
 		toCommit = n
 	}
+	if toCommit <= 0 {
+		// Nothing was claimed: do not move head/tail to the (empty) claim.
+		buf.claimHead = 0
+		buf.claimTail = 0
+		return nil
+	}
 	var head, tail int
 	if buf.Committed() == 0 {
 		buf.head = buf.claimHead
